@@ -73,3 +73,26 @@ CONTRACTS.append(
         pure_results=PURE,
     )
 )
+
+# --------------------------------------------------------------------------------------------------------------
+# cdd/docstring/emit.py:docstring, the re-indentation step (runs for indent_level >= 1): the text is rebuilt as the first
+# non-blank line + "the remaining lines", which are candidate_doc_str[J:].splitlines().  J is probed: it is the position of
+# the newline that ends the first non-blank line, or one past it -- never further, so no header line is skipped.
+ME = "cdd.docstring.emit"
+
+CONTRACTS.append(
+    Contract(
+        ME + ":docstring#reindent-keeps-every-line",
+        src=ME + ":docstring",
+        block=("lines = ", "lines = "),
+        probes={"J": "next_nl if len(candidate_doc_str) == next_nl"},
+        params={"candidate_doc_str": "str", "next_nl": "int", "line": "str"},
+        # next_nl is where str.find found the line break that ends the first non-blank line
+        requires=["next_nl >= 0", "next_nl < length(candidate_doc_str)", "substr(candidate_doc_str, next_nl, next_nl + 1) == '\\n'"],
+        ensures=[
+            # the remaining lines start at that line break or right after it: nothing but the line break is skipped
+            "J == next_nl or J == next_nl + 1",
+        ],
+        pure_results=PURE,
+    )
+)
